@@ -326,7 +326,7 @@ func (p *parser) ifStatement() ast.Statement {
 		}
 		comma := p.previous()
 		p.setScope(thenScope)
-		Then = p.checkedDeclaration() // parse the single (non-block) statement
+		Then = p.checkedBodyStatement() // parse the single (non-block) statement
 		p.exitScope()
 		Then = &ast.BlockStmt{
 			Range:      Then.GetRange(),
@@ -345,7 +345,7 @@ func (p *parser) ifStatement() ast.Statement {
 			} else { // without it we just parse a single statement
 				_else := p.previous()
 				p.setScope(elseScope)
-				Else = p.checkedDeclaration()
+				Else = p.checkedBodyStatement()
 				p.exitScope()
 				Else = &ast.BlockStmt{
 					Range:      Else.GetRange(),
@@ -396,7 +396,7 @@ func (p *parser) whileStatement() ast.Statement {
 	} else {
 		is := p.previous()
 		p.setScope(bodyTable)
-		Body = p.checkedDeclaration()
+		Body = p.checkedBodyStatement()
 		p.exitScope()
 		Body = &ast.BlockStmt{
 			Range:      Body.GetRange(),
@@ -506,7 +506,7 @@ func (p *parser) forStatement() ast.Statement {
 		} else { // body is a single statement
 			Colon := p.previous()
 			p.setScope(bodyTable)
-			stmt := p.checkedDeclaration()
+			stmt := p.checkedBodyStatement()
 			p.exitScope()
 			// wrap the single statement in a block for variable-scoping of the counter variable in the resolver and typechecker
 			Body = &ast.BlockStmt{
@@ -584,7 +584,7 @@ func (p *parser) forStatement() ast.Statement {
 		} else { // body is a single statement
 			Colon := p.previous()
 			p.setScope(bodyTable)
-			stmt := p.checkedDeclaration()
+			stmt := p.checkedBodyStatement()
 			p.exitScope()
 			// wrap the single statement in a block for variable-scoping of the counter variable in the resolver and typechecker
 			Body = &ast.BlockStmt{
@@ -708,4 +708,19 @@ func (p *parser) todoStmt() ast.Statement {
 
 func (p *parser) expressionStatement() ast.Statement {
 	return p.finishStatement(&ast.ExprStmt{Expr: p.expression()})
+}
+
+// parses the single statement that is the body of an if or a loop
+// unlike at the top level, there must be a statement
+func (p *parser) checkedBodyStatement() ast.Statement {
+	begin := p.peek()
+	stmt := p.checkedDeclaration()
+	if stmt == nil { // alias declarations are no statements (and may only be declared in the global scope)
+		p.err(ddperror.SEM_ALIAS_MUST_BE_GLOBAL, token.NewRange(begin, p.previous()), "Ein Alias darf nur im globalen Bereich deklariert werden!")
+		stmt = &ast.BadStmt{
+			Err: p.lastError,
+			Tok: *begin,
+		}
+	}
+	return stmt
 }
